@@ -2584,6 +2584,11 @@ bool BW_MidiSequencer::parseRSXX(FileAndMemReader &fr)
 
         size_t pos = fr.tell();
         fr.seek(0, FileAndMemReader::END);
+        if(fr.tell() < pos)
+        {
+            m_errorString = fr.fileName() + ": Unexpected file ending while getting raw track data!\n";
+            return false;
+        }
         trackLength = fr.tell() - pos;
         fr.seek(static_cast<long>(pos), FileAndMemReader::SET);
 
@@ -2704,6 +2709,11 @@ bool BW_MidiSequencer::parseCMF(FileAndMemReader &fr)
         size_t trackLength;
         size_t pos = fr.tell();
         fr.seek(0, FileAndMemReader::END);
+        if(fr.tell() < pos)
+        {
+            m_errorString = fr.fileName() + ": Unexpected file ending while getting raw track data!\n";
+            return false;
+        }
         trackLength = fr.tell() - pos;
         fr.seek(static_cast<long>(pos), FileAndMemReader::SET);
 
@@ -2773,6 +2783,11 @@ bool BW_MidiSequencer::parseGMF(FileAndMemReader &fr)
         size_t trackLength;
         size_t pos = fr.tell();
         fr.seek(0, FileAndMemReader::END);
+        if(fr.tell() < pos)
+        {
+            m_errorString = fr.fileName() + ": Unexpected file ending while getting raw track data!\n";
+            return false;
+        }
         trackLength = fr.tell() - pos;
         fr.seek(static_cast<long>(pos), FileAndMemReader::SET);
 
